@@ -61,6 +61,7 @@ type (
 type MapObj struct {
 	KeySort, ValSort *Sort
 	Arr              Term // (Array KeySort ValSort); ValSort's absent marker denotes "no entry"
+	Has              Term // (Array KeySort Bool): presence, for value sorts without an absent marker
 	Absent           Term
 	// Structured maps (values are executor values): only constant/identical keys are supported.
 	Struct   bool
@@ -68,6 +69,7 @@ type MapObj struct {
 	Entries  map[string]Value // key term string -> value
 	KeyTerms map[string]Term
 	Typ      *types.Map
+	Name     string // access path of an input map (deterministic naming of its entries)
 	Havocked bool // content unknown (havocked by a loop rule)
 	Fresh    bool // created by make() on this path: certainly non-nil
 	NilT     Term // symbolic "map is nil" flag for input maps ("" = certainly non-nil)
